@@ -487,6 +487,13 @@ def main():
     m_rec = re.search(r"\bresolve_delegation\(", branch)
     if not m_rec:
         die("translator c19: the re-delegation branch no longer resolves the linked parent Delegation")
+    # … and, after the recursion, the link is refused unless the inherited candidate CONTAINS the child's scope, conditions and
+    # constraints; the candidate keeps the child's own bounds (no `.intersect(` / `.tighten(` anywhere in resolve_delegation)
+    after_rec = branch[m_rec.end():]
+    guard = re.search(r"if\s+((?:[^{};]|\n)*?)\{\s*return\s+Ok\(None\)", after_rec)
+    redeleg_contained = bool(guard and all(re.search(r"!\s*\w+\s*\.\s*" + dim + r"\s*\.\s*contains\(", guard.group(1)) for dim in ("scope", "conditions", "constraints"))
+                             and guard.group(1).count("||") >= 2 and "&&" not in guard.group(1)
+                             and not re.search(r"\.\s*(?:intersect|tighten)\s*\(", rd))
     redelegator_checked = bool(m_live and m_live.start() < m_rec.start()
                                and re.search(r"status\s*==\s*status::ACTIVE", branch[m_live.start():m_rec.start()])
                                and re.search(r"return\s+Ok\(None\)", branch[m_live.start():m_rec.start()]))
@@ -678,6 +685,9 @@ def main():
     A(f"def conferralTestsOneCandidate : Bool := {'true' if one_closure else 'false'}")
     A("/-- resolve_delegation, re-delegation branch: the re-delegating Principal is looked up and must be ACTIVE before the recursion -/")
     A(f"def redelegatorMustBeActive : Bool := {'true' if redelegator_checked else 'false'}")
+    A("/-- resolve_delegation, re-delegation branch: refused unless the inherited candidate contains the child's scope, conditions AND")
+    A("    constraints; the child's own bounds are kept (no intersect / tighten) -/")
+    A(f"def redelegationGuardedByContainment : Bool := {'true' if redeleg_contained else 'false'}")
     A("")
     A("/-! ### KQL -/")
     A(f"def kqlBase : List String := {lean_list(kql_base)}")
@@ -754,6 +764,7 @@ def main():
     A("theorem gen_owner_candidate : ownerCandidateExport = true ∧ ownerCandidateMayDelegate = true := by decide")
     A("theorem gen_conferral_tests_one_candidate : conferralTestsOneCandidate = true := by decide")
     A("theorem gen_redelegator_must_be_active : redelegatorMustBeActive = true := by decide")
+    A("theorem gen_redelegation_guarded_by_containment : redelegationGuardedByContainment = true := by decide")
     A("theorem gen_permission_names_nodup : permissionNames.Nodup := by decide")
     A("end AndaVerif.Gen.GateTables")
     write_gen(gen, "GateTables.lean", "\n".join(L) + "\n")
